@@ -28,16 +28,40 @@ struct Shared {
     reason: Option<String>,
 }
 
+/// The pre_start gate: with `mode` 1 pre_start parks at its await point until `open` is notified
+/// (ops `enter` / `leave`); `me` is the actor's own reference as pre_start received it (the only
+/// way to reach an actor spawned with the non-instant `spawn*` calls before they return — what a
+/// pre_start that registers itself somewhere makes possible).
+#[derive(Default)]
+struct Gate {
+    mode: AtomicU8,
+    entered: AtomicU8,
+    open: tokio::sync::Notify,
+    me: Mutex<Option<ActorRef<u64>>>,
+}
+
+impl Gate {
+    async fn pass(&self, myself: ActorRef<u64>) {
+        *self.me.lock().unwrap() = Some(myself);
+        if self.mode.load(Ordering::SeqCst) == 1 {
+            self.entered.store(1, Ordering::SeqCst);
+            self.open.notified().await;
+        }
+    }
+}
+
 struct Target {
     shared: Arc<Mutex<Shared>>,
     outcome: Arc<AtomicU8>, // what pre_start returns: 0 ok, 1 err
+    gate: Arc<Gate>,
 }
 
 impl Actor for Target {
     type Msg = u64;
     type State = ();
     type Arguments = ();
-    async fn pre_start(&self, _: ActorRef<u64>, _: ()) -> Result<(), ActorProcessingErr> {
+    async fn pre_start(&self, myself: ActorRef<u64>, _: ()) -> Result<(), ActorProcessingErr> {
+        self.gate.pass(myself).await;
         if self.outcome.load(Ordering::SeqCst) == 0 {
             Ok(())
         } else {
@@ -56,12 +80,14 @@ struct TargetTl;
 struct TlArgs {
     shared: Arc<Mutex<Shared>>,
     outcome: Arc<AtomicU8>,
+    gate: Arc<Gate>,
 }
 impl ThreadLocalActor for TargetTl {
     type Msg = u64;
     type State = Arc<Mutex<Shared>>;
     type Arguments = TlArgs;
-    async fn pre_start(&self, _: ActorRef<u64>, a: TlArgs) -> Result<Self::State, ActorProcessingErr> {
+    async fn pre_start(&self, myself: ActorRef<u64>, a: TlArgs) -> Result<Self::State, ActorProcessingErr> {
+        a.gate.pass(myself).await;
         if a.outcome.load(Ordering::SeqCst) == 0 {
             Ok(a.shared)
         } else {
@@ -118,8 +144,12 @@ async fn quiesce() {
 struct World {
     shared: Arc<Mutex<Shared>>,
     outcome: Arc<AtomicU8>,
-    target: ActorRef<u64>,
+    gate: Arc<Gate>,
+    /// instant spawns hand the reference out at once; the plain `spawn*` calls only through pre_start
+    target: Option<ActorRef<u64>>,
     start: Option<JoinHandle<Result<JoinHandle<()>, SpawnErr>>>,
+    /// the start task has been let run (`enter` / `poll`): later ops are followed by a settle
+    begun: bool,
     sup: Option<ActorRef<()>>,
     next: u64,
     /// thread-local flavour: the spawner and the channel that releases its thread
@@ -129,9 +159,11 @@ struct World {
 }
 
 impl World {
-    async fn new(linked: bool, tl: bool) -> Self {
+    /// `ni`: the non-instant calls `spawn` / `spawn_linked`, awaited by a task of the harness
+    async fn new(linked: bool, tl: bool, ni: bool) -> Self {
         let shared: Arc<Mutex<Shared>> = Default::default();
         let outcome = Arc::new(AtomicU8::new(0));
+        let gate: Arc<Gate> = Default::default();
         let sup = if linked {
             let (s, _) = Actor::spawn(None, Sup { shared: shared.clone() }, ()).await.expect("sup");
             quiesce().await;
@@ -155,29 +187,59 @@ impl World {
             }
             // the spawner's thread stands still inside the blocker's pre_start: the target's
             // start request stays queued until `poll`
-            let args = TlArgs { shared: shared.clone(), outcome: outcome.clone() };
-            let (target, start) = match &sup {
-                Some(s) => TargetTl::spawn_linked_instant(None, args, s.get_cell(), spawner.clone()).expect("instant"),
-                None => TargetTl::spawn_instant(None, args, spawner.clone()).expect("instant"),
+            let args = TlArgs { shared: shared.clone(), outcome: outcome.clone(), gate: gate.clone() };
+            let (target, start) = if ni {
+                let (sp, s2) = (spawner.clone(), sup.clone());
+                let h = tokio::spawn(async move {
+                    let (_, h) = match s2 {
+                        Some(s) => TargetTl::spawn_linked(None, args, s.get_cell(), sp).await?,
+                        None => TargetTl::spawn(None, args, sp).await?,
+                    };
+                    Ok(h)
+                });
+                (None, h)
+            } else {
+                let (t, h) = match &sup {
+                    Some(s) => TargetTl::spawn_linked_instant(None, args, s.get_cell(), spawner.clone()).expect("instant"),
+                    None => TargetTl::spawn_instant(None, args, spawner.clone()).expect("instant"),
+                };
+                (Some(t), h)
             };
-            return World { shared, outcome, target, start: Some(start), sup, next: 0, spawner: Some(spawner), release: Some(tx), blocker: Some(blocker) };
+            return World { shared, outcome, gate, target, start: Some(start), begun: false, sup, next: 0, spawner: Some(spawner), release: Some(tx), blocker: Some(blocker) };
         }
-        let t = Target { shared: shared.clone(), outcome: outcome.clone() };
+        let t = Target { shared: shared.clone(), outcome: outcome.clone(), gate: gate.clone() };
         // no yield between this call and the ops that follow: the start task has not been polled
-        let (target, start) = match &sup {
-            Some(s) => ractor::ActorRuntime::<Target>::spawn_linked_instant(None, t, (), s.get_cell()).expect("instant"),
-            None => ractor::ActorRuntime::<Target>::spawn_instant(None, t, ()).expect("instant"),
+        let (target, start) = if ni {
+            let s2 = sup.clone();
+            let h = tokio::spawn(async move {
+                let (_, h) = match s2 {
+                    Some(s) => Actor::spawn_linked(None, t, (), s.get_cell()).await?,
+                    None => Actor::spawn(None, t, ()).await?,
+                };
+                Ok(h)
+            });
+            (None, h)
+        } else {
+            let (r, h) = match &sup {
+                Some(s) => ractor::ActorRuntime::<Target>::spawn_linked_instant(None, t, (), s.get_cell()).expect("instant"),
+                None => ractor::ActorRuntime::<Target>::spawn_instant(None, t, ()).expect("instant"),
+            };
+            (Some(r), h)
         };
-        World { shared, outcome, target, start: Some(start), sup, next: 0, spawner: None, release: None, blocker: None }
+        World { shared, outcome, gate, target, start: Some(start), begun: false, sup, next: 0, spawner: None, release: None, blocker: None }
+    }
+
+    fn target(&self) -> Option<ActorRef<u64>> {
+        self.target.clone().or_else(|| self.gate.me.lock().unwrap().clone())
     }
 
     fn snap(&self) -> String {
         let sh = self.shared.lock().unwrap();
         let h: Vec<String> = sh.handled.iter().map(|x| x.to_string()).collect();
         format!(
-            "h=[{}] st={:?} r={}",
+            "h=[{}] st={} r={}",
             h.join(","),
-            self.target.get_status(),
+            self.target().map(|t| format!("{:?}", t.get_status())).unwrap_or_else(|| "NoRef".into()),
             if self.sup.is_some() { sh.reason.clone().unwrap_or_else(|| "-".into()) } else { "-".into() }
         )
     }
@@ -197,20 +259,33 @@ impl World {
         }
     }
 
-    /// ops issued before `poll` never yield; afterwards the world is run to quiescence
+    async fn join_start(&mut self) -> String {
+        match self.start.take() {
+            None => "start=already".into(),
+            Some(jh) => match jh.await {
+                Ok(Ok(_)) => "start=ok".into(),
+                Ok(Err(SpawnErr::ActorAlreadyStarted)) => "start=err:already-started".into(),
+                Ok(Err(SpawnErr::StartupFailed(_))) => "start=err:startup-failed".into(),
+                Ok(Err(_)) => "start=err:other".into(),
+                Err(_) => "start=err:join".into(),
+            },
+        }
+    }
+
+    /// ops issued before `poll` / `enter` never yield; afterwards the world is run to quiescence
     async fn exec(&mut self, line: &str) -> String {
-        let started = self.start.is_none();
         let w: Vec<&str> = line.split_whitespace().collect();
-        let r = match w.as_slice() {
-            ["cast"] => {
+        let t = self.target();
+        let r = match (w.as_slice(), &t) {
+            (["cast"], Some(t)) => {
                 let id = self.next;
                 self.next += 1;
-                if self.target.cast(id).is_ok() { "ok" } else { "err" }.to_string()
+                if t.cast(id).is_ok() { "ok" } else { "err" }.to_string()
             }
             // cluster builds: the same cast as a serialized message (`ActorCell::send_serialized`,
             // the path a NodeSession uses for messages from a peer)
             #[cfg(feature = "cluster")]
-            ["scast"] => {
+            (["scast"], Some(t)) => {
                 let id = self.next;
                 self.next += 1;
                 let m = ractor::message::SerializedMessage::Cast {
@@ -218,36 +293,72 @@ impl World {
                     args: ractor::BytesConvertable::into_bytes(id),
                     metadata: None,
                 };
-                if self.target.get_cell().send_serialized(m).is_ok() { "ok" } else { "err" }.to_string()
+                if t.get_cell().send_serialized(m).is_ok() { "ok" } else { "err" }.to_string()
             }
-            ["drain"] => if self.target.drain().is_ok() { "ok" } else { "err" }.to_string(),
-            ["stop"] => {
-                self.target.stop(None);
+            (["drain"], Some(t)) => if t.drain().is_ok() { "ok" } else { "err" }.to_string(),
+            (["stop"], Some(t)) => {
+                t.stop(None);
                 "ok".into()
             }
-            ["kill"] => {
-                self.target.kill();
+            (["kill"], Some(t)) => {
+                t.kill();
                 "ok".into()
             }
-            ["poll", o] => {
+            (["cast" | "scast" | "drain" | "stop" | "kill"], None) => "noref".into(),
+            (["poll", o], _) => {
                 self.outcome.store(if *o == "ok" { 0 } else { 1 }, Ordering::SeqCst);
                 if let Some(tx) = self.release.take() {
                     let _ = tx.send(());
                 }
-                match self.start.take() {
-                    None => "start=already".into(),
-                    Some(jh) => match jh.await {
-                        Ok(Ok(_)) => "start=ok".into(),
-                        Ok(Err(SpawnErr::ActorAlreadyStarted)) => "start=err:already-started".into(),
-                        Ok(Err(SpawnErr::StartupFailed(_))) => "start=err:startup-failed".into(),
-                        Ok(Err(_)) => "start=err:other".into(),
-                        Err(_) => "start=err:join".into(),
-                    },
+                self.begun = true;
+                // a start parked at the gate (`enter`) is let go as by `leave`
+                self.gate.mode.store(0, Ordering::SeqCst);
+                self.gate.open.notify_one();
+                self.join_start().await
+            }
+            // the start task runs until pre_start is parked at its await point
+            (["enter"], _) => {
+                if self.begun {
+                    "enter=already".into()
+                } else {
+                    self.gate.mode.store(1, Ordering::SeqCst);
+                    if let Some(tx) = self.release.take() {
+                        let _ = tx.send(());
+                    }
+                    self.begun = true;
+                    let mut n = 0;
+                    while self.gate.entered.load(Ordering::SeqCst) == 0
+                        && !self.start.as_ref().is_some_and(|h| h.is_finished())
+                        && n < 2000
+                    {
+                        tokio::task::yield_now().await;
+                        if self.spawner.is_some() {
+                            std::thread::yield_now();
+                        }
+                        n += 1;
+                    }
+                    self.settle().await;
+                    if self.start.as_ref().is_some_and(|h| h.is_finished()) {
+                        // a kill that was already pending won the select before pre_start ran
+                        "start-over"
+                    } else if self.gate.entered.load(Ordering::SeqCst) == 1 {
+                        "entered"
+                    } else {
+                        "not-entered"
+                    }
+                    .into()
                 }
+            }
+            // pre_start returns
+            (["leave", o], _) => {
+                self.outcome.store(if *o == "ok" { 0 } else { 1 }, Ordering::SeqCst);
+                self.gate.mode.store(0, Ordering::SeqCst);
+                self.gate.open.notify_one();
+                self.join_start().await
             }
             _ => "bad-op".into(),
         };
-        if started || self.start.is_none() {
+        if self.begun {
             self.settle().await;
         }
         format!("{r} {}", self.snap())
@@ -258,7 +369,11 @@ impl World {
         if let Some(tx) = &rel {
             let _ = tx.send(());
         }
-        self.target.kill();
+        self.gate.mode.store(0, Ordering::SeqCst);
+        self.gate.open.notify_one();
+        if let Some(t) = self.target() {
+            t.kill();
+        }
         if let Some(s) = &self.sup {
             s.kill();
         }
@@ -275,10 +390,11 @@ impl World {
     }
 }
 
-async fn run_case(log: &mut Log, st: &mut Stats, ops: &[String], linked: bool, tl: bool) {
-    let mut w = World::new(linked, tl).await;
+async fn run_case(log: &mut Log, st: &mut Stats, ops: &[String], linked: bool, tl: bool, ni: bool) {
+    let mut w = World::new(linked, tl, ni).await;
     st.bump(if tl { "case_tl" } else { "case_send" });
-    log.rec(format!("case {}{}", linked as u8, if tl { " tl" } else { "" }), "ok");
+    st.bump(if ni { "case_plain_spawn" } else { "case_instant" });
+    log.rec(format!("case {}{}{}", linked as u8, if tl { " tl" } else { "" }, if ni { " ni" } else { "" }), "ok");
     for op in ops {
         let r = w.exec(op).await;
         st.bump(op.split_whitespace().next().unwrap_or("?"));
@@ -295,9 +411,10 @@ fn cast_op(rng: &mut Rng) -> &'static str {
     }
 }
 
-fn gen_ops(rng: &mut Rng, st: &mut Stats) -> Vec<String> {
+/// `ni`: nobody holds a reference before pre_start runs, so no requests before the start
+fn gen_ops(rng: &mut Rng, st: &mut Stats, ni: bool) -> Vec<String> {
     let mut ops = Vec::new();
-    let pre = rng.range(0, 6);
+    let pre = if ni { 0 } else { rng.range(0, 6) };
     let mut drained = false;
     for _ in 0..pre {
         let k = rng.below(100);
@@ -317,7 +434,33 @@ fn gen_ops(rng: &mut Rng, st: &mut Stats) -> Vec<String> {
     if drained {
         st.bump("case_drain_before_start");
     }
-    ops.push(if rng.chance(5, 6) { "poll ok" } else { "poll err" }.to_string());
+    if ni || rng.chance(1, 2) {
+        // the start is let run up to pre_start's await point; requests arrive while it is parked
+        ops.push("enter".to_string());
+        let mid = rng.range(0, 4);
+        let mut d = false;
+        for _ in 0..mid {
+            let k = rng.below(100);
+            ops.push(
+                match k {
+                    0..=49 => cast_op(rng),
+                    50..=87 => {
+                        d = true;
+                        "drain"
+                    }
+                    88..=94 => "stop",
+                    _ => "kill",
+                }
+                .to_string(),
+            );
+        }
+        if d {
+            st.bump("case_drain_during_pre_start");
+        }
+        ops.push(if rng.chance(5, 6) { "leave ok" } else { "leave err" }.to_string());
+    } else {
+        ops.push(if rng.chance(5, 6) { "poll ok" } else { "poll err" }.to_string());
+    }
     let post = rng.range(0, 5);
     for _ in 0..post {
         let k = rng.below(100);
@@ -336,24 +479,24 @@ fn gen_ops(rng: &mut Rng, st: &mut Stats) -> Vec<String> {
 
 async fn replay_ops(log: &mut Log, st: &mut Stats, path: &str) {
     let text = std::fs::read_to_string(path).unwrap_or_default();
-    let mut cur: Option<(bool, bool, Vec<String>)> = None;
+    let mut cur: Option<(bool, bool, bool, Vec<String>)> = None;
     for line in text.lines() {
         let line = line.trim();
         if line.is_empty() {
             continue;
         }
         if let Some(rest) = line.strip_prefix("case") {
-            if let Some((l, t, ops)) = cur.take() {
-                run_case(log, st, &ops, l, t).await;
+            if let Some((l, t, n, ops)) = cur.take() {
+                run_case(log, st, &ops, l, t, n).await;
             }
             let f: Vec<&str> = rest.split_whitespace().collect();
-            cur = Some((f.first() == Some(&"1"), f.get(1) == Some(&"tl"), vec![]));
-        } else if let Some((_, _, ops)) = cur.as_mut() {
+            cur = Some((f.first() == Some(&"1"), f.contains(&"tl"), f.contains(&"ni"), vec![]));
+        } else if let Some((_, _, _, ops)) = cur.as_mut() {
             ops.push(line.to_string());
         }
     }
-    if let Some((l, t, ops)) = cur.take() {
-        run_case(log, st, &ops, l, t).await;
+    if let Some((l, t, n, ops)) = cur.take() {
+        run_case(log, st, &ops, l, t, n).await;
     }
 }
 
@@ -371,7 +514,11 @@ async fn main() {
     }
     if args.u64("only-replay", 0) != 1 {
         // fixed boundary cases first
-        let fixed: [&[&str]; 8] = [
+        let fixed: [&[&str]; 12] = [
+            &["cast", "enter", "cast", "drain", "cast", "leave ok"],
+            &["enter", "drain", "leave ok", "cast"],
+            &["enter", "cast", "drain", "leave err"],
+            &["enter", "cast", "drain", "stop", "leave ok"],
             &["cast", "cast", "drain", "cast", "poll ok"],
             &["drain", "poll ok", "cast"],
             &["cast", "drain", "drain", "poll ok"],
@@ -383,14 +530,26 @@ async fn main() {
         ];
         for (i, f) in fixed.iter().enumerate() {
             let ops: Vec<String> = f.iter().map(|s| s.to_string()).collect();
-            run_case(&mut log, &mut st, &ops, i % 2 == 0, false).await;
-            run_case(&mut log, &mut st, &ops, i % 2 == 1, true).await;
+            if i < 4 {
+                // drain while pre_start is suspended: plain/linked x instant/non-instant x Send/thread-local
+                let ni_ops: Vec<String> = ops.iter().skip_while(|o| *o != "enter").cloned().collect();
+                for linked in [false, true] {
+                    for tl in [false, true] {
+                        run_case(&mut log, &mut st, &ops, linked, tl, false).await;
+                        run_case(&mut log, &mut st, &ni_ops, linked, tl, true).await;
+                    }
+                }
+                continue;
+            }
+            run_case(&mut log, &mut st, &ops, i % 2 == 0, false, false).await;
+            run_case(&mut log, &mut st, &ops, i % 2 == 1, true, false).await;
         }
         for _ in 0..cases {
-            let ops = gen_ops(&mut rng, &mut st);
+            let ni = rng.chance(1, 4);
+            let ops = gen_ops(&mut rng, &mut st, ni);
             let linked = rng.chance(1, 2);
             let tl = rng.chance(1, 3);
-            run_case(&mut log, &mut st, &ops, linked, tl).await;
+            run_case(&mut log, &mut st, &ops, linked, tl, ni).await;
         }
     }
     st.add("lines", log.lines);
